@@ -11,7 +11,9 @@ EXTENDS ContextsCore, Json
 
 CONSTANTS Flags,        \* deviations built into the machine ({} = the statement)
           OpsA,         \* number of free statements in file a (1..2)
-          Rel           \* TRUE: the grammar with a package k (__init__ + members u, v) and relative imports
+          Mode          \* "plain": files a, b + module m; "rel": package k (__init__ + members u, v) with relative imports;
+                        \* "conc": two activations of one module function at a time - suspended callers from two files,
+                        \*         a re-entrant callback chain a -> m.apply -> a.cb -> m.apply, recursion across a file boundary
 
 VARIABLES P, S
 vars == <<P, S>>
@@ -26,6 +28,8 @@ Def(f, body, trig) == [op |-> "def", f |-> f, body |-> body, trig |-> trig]
 Call(f, via) == [op |-> "call", f |-> f, via |-> via]
 TryCall(f, via, tag) == [op |-> "trycall", f |-> f, via |-> via, tag |-> tag]
 Task(f) == [op |-> "task", f |-> f]
+Sleep(t) == [op |-> "sleep", t |-> t]
+DCall(f, via, cb) == [op |-> "dcall", f |-> f, via |-> via, cb |-> cb]
 Import(form, target, alt, as, names) == [op |-> "import", form |-> form, target |-> target, alt |-> alt, as |-> as, names |-> names]
 ImportM(form) == Import(form, "modules.m", "modules.m", "m", <<"f", "g", "x">>)
 
@@ -58,9 +62,32 @@ KV == << Set("WHO", "v"), Set("x", "v0"), Def("fv", << Set("x", "v1") >>, "") >>
 ARel == << Set("WHO", "a"), Set("x", "a0"), Import("mod", "modules.k", "modules.k", "k", <<>>), ReadAttr("k", "x", "a.kx"),
            Read("x", "a.x") >>
 
+\* concurrency / re-entrancy grammar.  m: slow() suspends between a write and a read of its own global; apply() calls
+\* the callback it was given (passing it on); rec() calls itself.  a and b import m (any form), each has a trigger
+\* function that runs one of {slow, apply with its own callback cb, rec} and then reads its own global and context;
+\* a.cb / b.cb call m.apply again (depth-guarded): a -> m.apply -> a.cb -> m.apply -> a.cb.
+MConc == << Set("WHO", "m"), Set("x", "m0"),
+            Def("slow", << Set("x", "m1"), Sleep(8), Read("x", "slow.x"), Sleep(16), Read("WHO", "slow.who") >>, ""),
+            Def("apply", << DCall("_cb", "", "_cb"), Read("WHO", "apply.who") >>, ""),
+            Def("rec", << DCall("rec", "", ""), Read("WHO", "rec.who") >>, "") >>
+UseOps(form, tag) == LET via == IF form = "mod" THEN "m" ELSE "" IN
+  { << TryCall("slow", via, tag \o ".slow") >>, << DCall("apply", via, "cb") >>, << DCall("rec", via, "") >>,
+    << TryCall("slow", via, tag \o ".slow"), DCall("apply", via, "cb") >> }
+ConcBody(who, form, use, ev, eps) ==
+  << Set("WHO", who), Set("x", who \o "0"), Import(form, "modules.m", "modules.m", "m", <<"slow", "apply", "rec">>),
+     Def("cb", << DCall("apply", IF form = "mod" THEN "m" ELSE "", "cb"), Read("WHO", who \o ".cb.who") >>, ""),
+     Def("t", << Sleep(eps), Loc("y", who \o "l") >> \o use \o << Read("WHO", who \o ".t.who"), Read("y", who \o ".t.y"),
+                 [op |-> "getctx", tag |-> who \o ".t.ctx"] >>, ev) >>
+
 File(body, auto) == [body |-> body, auto |-> auto]
 Progs ==
-  IF Rel
+  IF Mode = "conc"
+  THEN { [files |-> ("file.a" :> File(ConcBody("a", fa, ua, "e1", 1), TRUE)) @@ ("file.b" :> File(ConcBody("b", fb, ub, "e2", 2), TRUE)) @@
+                    ("modules.m" :> File(MConc, FALSE)),
+          order |-> <<"file.a", "file.b">>, events |-> <<"e1", "e2">>]
+         : <<fa, ua>> \in UNION { { <<f, u>> : u \in UseOps(f, "a") } : f \in Forms },
+           <<fb, ub>> \in UNION { { <<f, u>> : u \in UseOps(f, "b") } : f \in Forms } }
+  ELSE IF Mode = "rel"
   THEN { [files |-> ("file.a" :> File(ARel, TRUE)) @@ ("modules.k" :> File(KInit(f1, f2), FALSE)) @@
                     ("modules.k.u" :> File(KU(f3), FALSE)) @@ ("modules.k.v" :> File(KV, FALSE)),
           order |-> <<"file.a">>, events |-> <<>>] : f1 \in Forms, f2 \in Forms, f3 \in Forms }
@@ -71,7 +98,8 @@ Progs ==
            <<fb, op>> \in UNION { { <<f, o>> : o \in Ops(f, "b1") } : f \in Forms }, body \in FBodies }
 
 Init == P \in Progs /\ S = Start(P)
-Next == ~Done(S) /\ S' = Step(P, S, Flags) /\ UNCHANGED P
+\* any suspended evaluator may be the next to run: all interleavings of the activations
+Next == ~Done(S) /\ \E i \in Choices(S) : S' = StepPick(P, S, Flags, i) /\ UNCHANGED P
 Spec == Init /\ [][Next]_vars
 
 InvWrites   == WritesOnlyToOwnGlobals(S)
@@ -83,9 +111,17 @@ W_NoCrossCall  == ~(Len(S.stack) >= 2 /\ Top(S).kind = "call" /\ Top(S).own # S.
 W_NoCaught     == ~(\E i \in 1..Len(S.log) : S.log[i].v = Data("caught"))
 W_NoSharedSeen == ~(\E i \in 1..Len(S.log) : S.log[i].tag = "r.mx" /\ S.log[i].v = Data("a1") /\ S.ptr = "file.b")
 W_NoTask       == ~(S.stack # <<>> /\ Top(S).kind = "call" /\ Len(S.stack) = 1 /\ Top(S).src = "file.b" /\ \E i \in 1..Len(S.log) : S.log[i].tag = "w.x")
+\* two activations of one function at the same time: in two evaluators (one suspended inside it) / nested in one stack
+FKeys(st) == { st[i].fkey : i \in { j \in 1..Len(st) : st[j].kind = "call" } }
+W_NoInterleave == ~(S.stack # <<>> /\ \E i \in 1..Len(S.sleepers) : \E k \in FKeys(S.stack) \cap FKeys(S.sleepers[i].stack) : k.ctx = "modules.m")
+W_NoReentry    == ~(\E i, j \in 1..Len(S.stack) : i + 1 < j /\ S.stack[i].kind = "call" /\ S.stack[j].kind = "call"
+                      /\ S.stack[i].fkey = S.stack[j].fkey /\ S.stack[i].fkey.name = "apply" /\ S.stack[i + 1].own # S.stack[i].own)
+W_NoRecursion  == ~(\E i \in 1..Len(S.stack) : i > 1 /\ i < Len(S.stack) /\ S.stack[i].kind = "call" /\ S.stack[i].fkey.name = "rec"
+                      /\ S.stack[i + 1].kind = "call" /\ S.stack[i + 1].fkey = S.stack[i].fkey /\ S.stack[i - 1].own # S.stack[i].own)
 \* all witnesses in one run (workers = 1): registers set by the invariant WitTrack, printed by the post-condition
-WitNames == << "W_NoCrossCall", "W_NoCaught", "W_NoSharedSeen", "W_NoTask" >>
+WitNames == << "W_NoCrossCall", "W_NoCaught", "W_NoSharedSeen", "W_NoTask", "W_NoInterleave", "W_NoReentry", "W_NoRecursion" >>
 WitVal(k) == CASE k = 1 -> ~W_NoCrossCall [] k = 2 -> ~W_NoCaught [] k = 3 -> ~W_NoSharedSeen [] k = 4 -> ~W_NoTask
+               [] k = 5 -> ~W_NoInterleave [] k = 6 -> ~W_NoReentry [] k = 7 -> ~W_NoRecursion
 ASSUME \A k \in 1..Len(WitNames) : TLCSet(k, FALSE)
 WitTrack  == \A k \in 1..Len(WitNames) : WitVal(k) => TLCSet(k, TRUE)
 WitReport == PrintT("INFO " \o ToJson([seen |-> { WitNames[k] : k \in { j \in 1..Len(WitNames) : TLCGet(j) } }]))
